@@ -12,7 +12,7 @@ use serde_json::{json, Value};
 use std::io::Write;
 use vharness::{
     evalx::*,
-    keys::{bits, seed_from_env, Rng, SPECIALS},
+    keys::{bits, unbits, seed_from_env, Rng, SPECIALS},
     pgen::{self, Inst, Mode},
     tapes::{ops_json, read_vmdata, ssa_eval, Prog, TapeRec},
     with_n,
@@ -126,7 +126,16 @@ fn step<P: Function<Trace = VmTrace>, C: Function<Trace = VmTrace>>(
     };
     let bs: Vec<Vec<i64>> = pts.iter().map(|p| ssa_eval(&parent_rec.ssa, p).bitsens).collect();
     // does a NaN occur anywhere in the pointwise reference evaluation?
-    let nan_mid = |ssa: &[vharness::tapes::GOp], p: &[f32]| ssa_eval(ssa, p).vals.iter().flatten().any(|v| v.is_nan());
+    // ... or the one locus where interval evaluation makes no claim (C03): an atan2 whose two arguments are both zero
+    let nan_mid = |ssa: &[vharness::tapes::GOp], p: &[f32]| {
+        let run = ssa_eval(ssa, p);
+        let val = |i: i64| run.vals.get(i as usize).copied().flatten().unwrap_or(f32::NAN);
+        run.vals.iter().flatten().any(|v| v.is_nan())
+            || ssa.iter().any(|g| g.name == "Atan" && g.class >= 4 && {
+                let (l, r) = match g.class { 4 => (val(g.a), unbits(g.imm)), 5 => (unbits(g.imm), val(g.a)), _ => (val(g.a), val(g.b)) };
+                l == 0.0 && r == 0.0
+            })
+    };
     let nan_parent: Vec<bool> = pts.iter().map(|p| nan_mid(&parent_rec.ssa, p)).collect();
     let nan_root: Vec<bool> = pts.iter().map(|p| nan_mid(root_ssa, p)).collect();
     let mut j = json!({"ev": "simplify", "id": cx.id, "label": label, "depth": depth, "tracer": tracer,
